@@ -218,6 +218,56 @@ def window_frames():
                     yield b((head + " " if head else "") + t + tail)
 
 
+def context_carry_inputs():
+    """IsXSS runs five context passes one after the other: a vector that only a later pass can see (hidden from the
+    data state inside a quoted value or a comment), followed by a tail that leaves the tokenizer of the earlier passes
+    in every kind of unfinished state (close-tag flag set, inside a tag, a value, a comment ...)."""
+    hidden = []
+    for q in ("'", '"', "`"):
+        hidden += ["<a b=%s><script>%s>" % (q, q), "<a b=%s onclick=1 %s>" % (q, q), "<a b=%s><iframe>%s x=y>" % (q, q),
+                   "<!--%s><script>-->" % q, "<a b=%s><script>%s>" % (q, q) + "<b>"]
+    hidden += ["<a b= onclick=1>", "<!--= onclick=1 -->"]
+    tails = ["</a >", "</a x>", "</a\t>", "</a/>", "</a x='y'>", "</a ", "</a x", "</a", "<a ", "<a b=", "<a b='", "<!--", "<![CDATA[", "</", "<",
+             "</a b=\"c\">", "<a/", "<?", "<%"]
+    for h in hidden:
+        for t in tails:
+            yield b(h + t)
+            yield b(h + " " + t + "<b>")
+
+
+FP_CANON = {"S": ["'s'", '"t"'], "V": ["@v", "null"], "N": ["foo", "dual"], "1": ["1", "2.5"], "E": ["select", "insert"], "(": ["("], ")": [")"],
+            "O": ["*", "="], "K": ["asc", "dec"], "&": ["and", "or"], "F": ["abs", "age"], "U": ["union", "except"], "B": ["limit", "having"],
+            "T": ["int", "drop"], ";": [";"], ",": [","], "A": ["collate"], ":": [":"], "X": ["/*!x*/"], "{": ["{"], "}": ["}"], ".": ["."], "?": ["?"],
+            "\\": ["\\"]}
+
+
+def fingerprint_inputs(fp_keys, r, frac=1.0):
+    """one input per entry of the fingerprint table, built from a canonical token for each class character (two
+    spellings), plus the same with a trailing comment and with the last token dropped: the decision stage (blacklist,
+    whitelist, the comment class) is exercised for every fingerprint the table knows and for its neighbours"""
+    for key in fp_keys:
+        f = key[1:] if key[:1] == "0" else key
+        if not f or any(ch not in FP_CANON and ch != "C" for ch in f):
+            continue
+        if frac < 1.0 and len(f) > 3 and r.random() > frac:
+            continue
+        for v in (0, 1):
+            toks = []
+            for i, ch in enumerate(f):
+                if ch == "C":
+                    toks.append("-- x" if i == len(f) - 1 else "/*c*/")
+                else:
+                    c = FP_CANON[ch]
+                    toks.append(c[(v + i) % len(c)] if v else c[0])
+            yield b(" ".join(toks))
+            if v == 0:
+                if f[-1] != "C":
+                    yield b(" ".join(toks) + " -- x")
+                    yield b(" ".join(toks) + " /*c*/")
+                if len(toks) > 1:
+                    yield b(" ".join(toks[:-1]))
+
+
 def literal_bodies(maxlen):
     """SQL literal openers x all bodies over {closer, quote, backslash, filler, opener byte}"""
     fam = [("q'[", "]'a["), ("q'x", "x'a"), ("q'(", ")'a("), ("nq'!", "!'a"), ("$a$", "$a x"), ("$$", "$a"), ("'", "'\\a"), ('"', '"\\a'),
